@@ -22,7 +22,7 @@ def main():
     for mp in sorted(glob.glob(os.path.join(ROOT, "seeded", "agent-*", "meta.json"))):
         m = json.load(open(mp))
         name = m["name"]
-        rnd = {"a": 1, "b": 2, "c": 3, "d": 4, "e": 5}.get(name[-1], 0)
+        rnd = {"a": 1, "b": 2, "c": 3, "d": 4, "e": 5, "f": 6, "g": 7, "h": 8}.get(name[-1], 0)
         checks = m.get("checks", {})
         caught = [p for p, r in checks.items() if r.get("exit") == 1]
         hist = m.get("detection_history", "")
@@ -47,7 +47,8 @@ def main():
                "(all re-confirmed by `tools/evalmut.py` before the change was kept). The checks were run against a scratch worktree with the "
                "patch applied (`VERIF_REPO=<worktree> VERIF_NO_REPLAY=1 python3 run.py <ID> quick`), i.e. by generated search only: the "
                "replay files of earlier findings were not consulted. \"first run\" in the history column means the state of the machinery "
-               "before it had seen the change.\n")
+               "before it had seen the change. The column of ALL alarming quick checks (tools/crossmut.py, every check against every change) was "
+               "computed for rounds 1-4; for the later rounds it reads n/a and the neighbours that were tried are named in the history.\n")
     out.append("Changes written by fresh sub-agents that were given only the property text and a scratch worktree (rounds 1-%d):\n" % max(per_round or {0: 0}))
     for rnd in sorted(per_round):
         pr = per_round[rnd]
